@@ -199,6 +199,9 @@ func (s *solver) check() string {
 	default:
 		s.Unknown++
 	}
+	if s.log != nil {
+		fmt.Fprintf(s.log, "; RESULT %s\n", res)
+	}
 	return res
 }
 
